@@ -182,7 +182,7 @@ def enabled_events(tracks, w, kinds=None):
         nxt = int(tracks.get_next_track_id())
         # fresh id, the id just above it (a one-step gap) and a wider gap
         cand_tids = tids + [nxt, nxt + 1, nxt + 3]
-        for t in range(worlds.T):
+        for t in range(worlds.nframes(w)):
             pix = None
             if w["seg"]:
                 pix = _block_bg(tracks, t)
@@ -240,6 +240,14 @@ def enabled_events(tracks, w, kinds=None):
         for n in nodes[:3]:
             for k, val in keys:
                 ev.append(("set_attr", n, k, val))
+        # a change in the 7th significant digit is still a change (and undo must take it back)
+        for n in nodes[:4]:
+            for k in (["score"] if w["custom"] else []) + ([w["keys"]["pos"]] if w["pos"] == "single" else []):
+                cur = tracks.graph.nodes[n].get(k)
+                if isinstance(cur, (int, float)) and not isinstance(cur, bool) and cur != 0:
+                    ev.append(("set_attr", n, k, float(cur) * (1 + 2e-7)))
+                elif isinstance(cur, (list, tuple, np.ndarray)) and len(cur) and float(cur[0]) != 0:
+                    ev.append(("set_attr", n, k, [float(cur[0]) * (1 + 2e-7)] + [float(x) for x in list(cur)[1:]]))
         ev.append(("set_attr", UNKNOWN, "note", 1.0))
     if want("paint") and w["seg"]:
         nid = free_id(tracks)
@@ -247,7 +255,7 @@ def enabled_events(tracks, w, kinds=None):
         by_t = {}
         for n, t in times.items():
             by_t.setdefault(t, []).append(n)
-        for t in range(worlds.T):
+        for t in range(worlds.nframes(w)):
             labels = [int(x) for x in np.unique(tracks.segmentation[t]) if x != 0]
             near = set()
             for dt in (-1, 1, -2, 2):
@@ -280,7 +288,7 @@ def primitive_events(tracks, w):
     nid = free_id(tracks)
     nxt_t = int(tracks.get_next_track_id())
     nxt_l = int(tracks.get_next_lineage_id())
-    for t in range(worlds.T):
+    for t in range(worlds.nframes(w)):
         pix = _block_bg(tracks, t) if w["seg"] else None
         if w["seg"] and pix is None:
             continue
